@@ -15,6 +15,7 @@ import (
 
 	"github.com/prometheus/prometheus/model/histogram"
 	"github.com/prometheus/prometheus/model/labels"
+	"github.com/prometheus/prometheus/model/value"
 	"github.com/prometheus/prometheus/storage"
 	"github.com/prometheus/prometheus/tsdb/chunkenc"
 
@@ -282,12 +283,35 @@ func EqualDumps(a, b Dump) string {
 			return fmt.Sprintf("series %s: %d vs %d samples (%v vs %v)", k, len(x), len(y), tsOf(x), tsOf(y))
 		}
 		for i := range x {
-			if x[i].T != y[i].T || x[i].ValKey() != y[i].ValKey() {
+			if x[i].T != y[i].T || cmpKey(x[i]) != cmpKey(y[i]) {
 				return fmt.Sprintf("series %s: sample %d differs: %s vs %s", k, i, x[i], y[i])
 			}
 		}
 	}
 	return ""
+}
+
+// IsStale reports whether the sample is a staleness marker of any sample type.
+func (s Sample) IsStale() bool {
+	switch s.Kind {
+	case "f":
+		return value.IsStaleNaN(s.F)
+	case "h":
+		return s.H != nil && value.IsStaleNaN(s.H.Sum)
+	case "fh":
+		return s.FH != nil && value.IsStaleNaN(s.FH.Sum)
+	}
+	return false
+}
+
+// cmpKey: staleness markers compare equal whatever their sample type (a float marker logged for a
+// series whose previous sample was a histogram is turned into a histogram marker depending on the
+// series state at append or replay time; readers treat all of them alike).
+func cmpKey(s Sample) string {
+	if s.IsStale() {
+		return "stale"
+	}
+	return s.ValKey()
 }
 
 // Brief renders a dump compactly for witnesses.
